@@ -35,31 +35,69 @@
 (* the cutoff flag; and a keep-everything memo keyed on the size even when *)
 (* the full grid is evaluated in between.  The driver realises the same    *)
 (* alphabet on real grids and replays the behaviours of this module.       *)
+(*                                                                         *)
+(* ENTRY POINTS (round 3).  "A model spectrum" is what ANY evaluating      *)
+(* entry point of the model object returns for a request: model() the sum  *)
+(* over the contribution list, model_contrib() one spectrum per            *)
+(* contribution, model_full_contrib() one per component (molecule,         *)
+(* scatterer) of every contribution.  `entry` is a second coordinate of    *)
+(* the request; an evaluation returns `parts`, the set of component sets   *)
+(* summed in the returned spectra, all of them on the ONE grid / SED /     *)
+(* opacity combination `out` derived from the request -- so EvalEqualsFull *)
+(* is the statement for every returned spectrum.  The per-component entry  *)
+(* points walk through the contribution list of the long-lived object      *)
+(* (`clist`) and must leave it as they found it, also when the request is  *)
+(* REFUSED (no native point in reach of the observation: HFails) half-way. *)
+(* Design slips hSlip = <<kind, entry>>, one invariant each, all REFUTED:  *)
+(*   swap      the entry point clips the REQUEST to the native grid (the   *)
+(*             two arguments of the clip exchanged): it computes on the    *)
+(*             requested centres instead of native points                  *)
+(*   nocut     the entry point clips although cutoff_grid = False          *)
+(*   left      a per-component entry point leaves the contribution list at *)
+(*             the last contribution it evaluated                          *)
+(*   leftfail  ... leaves it at the contribution it was evaluating when    *)
+(*             the request was refused                                     *)
 (***************************************************************************)
 EXTENDS Grid
 
 CONSTANTS HNat,      \* native grid of the model (the longest molecule grid), integer wavenumbers
           HMol,      \* own grid of a second molecule (coarser, not a subset, reaching beyond)
           HWins,     \* sequence of requests [oc |-> observation centres, cut |-> cutoff_grid]
+          HEntries,  \* entry points evaluated: subset of {"model", "contrib", "full"}
+          HSlipKinds,\* design slips of an entry point: subset of {"swap", "nocut", "left", "leftfail"}
           HLevels, HKeys, HWhats, HStores
 
 VARIABLES hLevel, hKey, hWhat, hStore,   \* the design variant, fixed at Init
+          hSlip,      \* <<kind, entry point>> of the design slip (<<"none", "none">>: as documented), fixed at Init
           win,        \* current request (0: no grid passed)
+          entry,      \* entry point the current request is evaluated through
           prev,       \* request of the evaluation before the current one (-1: none yet)
-          memo, out, evald
-hvars == <<hLevel, hKey, hWhat, hStore, win, prev, memo, out, evald>>
+          clist,      \* the contribution list the object currently holds
+          memo, out, parts, evald
+hdesign == <<hLevel, hKey, hWhat, hStore, hSlip>>
+hvars == <<hLevel, hKey, hWhat, hStore, hSlip, win, entry, prev, clist, memo, out, parts, evald>>
 
 HWinIds == 0..Len(HWins)
 HReq(w) == IF w = 0 THEN <<>> ELSE HWins[w].oc
 HCut(w) == w # 0 /\ HWins[w].cut
 \* per-grid quantities of a computed grid c
 QSed(c) == [k \in 1..Len(c) |-> <<"B", c[k]>>]
+\* (third column: a scatterer, whose cross-section is a function of the wavenumber alone)
 QOp(c)  == LET a == SelAlg("widened", HNat, c)
                b == SelAlg("widened", HMol, c)
-           IN  [k \in 1..Len(c) |-> <<SelNormal(a[k]), SelNormal(b[k])>>]
+           IN  [k \in 1..Len(c) |-> <<SelNormal(a[k]), SelNormal(b[k]), <<"R", c[k]>> >>]
 HAt(v, k, err) == IF k \in DOMAIN v THEN v[k] ELSE err
 \* positional combination (a stale array of another length: broadcast error, shown as the error entries)
-HCombine(g, s, o) == [k \in 1..Len(g) |-> [wn |-> g[k], sed |-> HAt(s, k, <<"B", -1>>), op |-> HAt(o, k, <<SelErr, SelErr>>)]]
+HCombine(g, s, o) == [k \in 1..Len(g) |-> [wn |-> g[k], sed |-> HAt(s, k, <<"B", -1>>), op |-> HAt(o, k, <<SelErr, SelErr, <<"R", -1>> >>)]]
+
+\* the contribution list of the model as built, in evaluation order, and the components (columns of op) of each
+HContribs == <<"abs", "ray">>
+HComps(c) == IF c = "abs" THEN {1, 2} ELSE {3}
+HAllContribs == {HContribs[i] : i \in DOMAIN HContribs}
+\* the spectra an entry point returns, as the sets of components summed in each of them, from a contribution list cl
+HPartsOf(e, cl) == CASE e = "model"   -> {UNION {HComps(c) : c \in cl}}
+                     [] e = "contrib" -> {HComps(c) : c \in cl}
+                     [] OTHER          -> {{k} : k \in UNION {HComps(c) : c \in cl}}
 
 \* (constant tables over the requests: TLC evaluates them once)
 \* the grid an evaluation computes on, as a sequence and as an index range of the native grid
@@ -67,14 +105,19 @@ HClipT == [w \in HWinIds |-> IF HCut(w) THEN GClip(HNat, HWins[w].oc) ELSE HNat]
 HLoT   == [w \in HWinIds |-> IF HCut(w) THEN GClipLo(HNat, HWins[w].oc) ELSE 1]
 HHiT   == [w \in HWinIds |-> IF HCut(w) THEN GClipHi(HNat, HWins[w].oc) ELSE Len(HNat)]
 HSedT  == [w \in HWinIds |-> QSed(HClipT[w])]
-HOpT   == [w \in HWinIds |-> QOp(HClipT[w])]
+HOpT   == [w \in HWinIds |-> IF HClipT[w] = <<>> THEN <<>> ELSE QOp(HClipT[w])]
+\* no native point in reach of the observation: the evaluation is refused (an exception or an empty result -- the
+\* statement says nothing about it), and must leave the object as it was
+HFails(w) == HClipT[w] = <<>>
 HClip(w) == HClipT[w]
 HLo(w)   == HLoT[w]
 HHi(w)   == HHiT[w]
 \* the full native computation, and its restriction to the points a request computes
 HFullOut == HCombine(HNat, QSed(HNat), QOp(HNat))
-HRestrictedT == [w \in HWinIds |-> [k \in 1..(HHiT[w] - HLoT[w] + 1) |-> HFullOut[HLoT[w] + k - 1]]]
+HRestrictedT == [w \in HWinIds |-> IF HFails(w) THEN <<>> ELSE [k \in 1..(HHiT[w] - HLoT[w] + 1) |-> HFullOut[HLoT[w] + k - 1]]]
 HRestricted(w) == HRestrictedT[w]
+\* ... and the spectra the entry point returns for it
+HParts(w, e) == IF HFails(w) THEN {} ELSE HPartsOf(e, HAllContribs)
 \* a freshly built object evaluated on the request
 HFreshT == [w \in HWinIds |-> HCombine(HClipT[w], HSedT[w], HOpT[w])]
 HFresh(w) == HFreshT[w]
@@ -99,34 +142,63 @@ HVariantOk == \* a memo of the clipped grid keyed on the clipped grid is circula
               /\ hKey = "none" => (hLevel = "request" /\ hWhat = "sed" /\ hStore = "last")
               \* the keep-everything store: one sound and one under-keyed representative (the memo is a set of entries)
               /\ hStore = "all" => (hLevel = "clip" /\ hWhat = "sed" /\ hKey \in {"content", "size"})
-HInit == /\ hLevel \in HLevels /\ hKey \in HKeys /\ hWhat \in HWhats /\ hStore \in HStores /\ HVariantOk
-         /\ win \in HWinIds /\ prev = -1 /\ memo = {} /\ out = <<>> /\ evald = FALSE
-\* another grid is passed to model(): the previous result is no longer looked at
-HSetWin(w) == /\ win # w /\ win' = w /\ evald' = FALSE /\ out' = <<>>
-              /\ prev' = IF evald THEN win ELSE prev
-              /\ UNCHANGED <<hLevel, hKey, hWhat, hStore, memo>>
-HEval == LET c == HClip(win)
-             g == HUse(win, "grid", c)
-         IN  /\ out' = HCombine(g, HUse(win, "sed", HSedT[win]), HUse(win, "op", HOpT[win]))
-             /\ memo' = IF hKey # "none" /\ HHit(win) = {}
-                        THEN (IF hStore = "last" THEN {} ELSE memo) \cup {HEntry(win)} ELSE memo
-             /\ evald' = TRUE
-             /\ UNCHANGED <<hLevel, hKey, hWhat, hStore, win, prev>>
-HNext == (\E w \in HWinIds : HSetWin(w)) \/ HEval
+              \* one deviation from the documented design at a time
+              /\ hSlip[1] # "none" => hKey = "none"
+\* a memo of a per-grid quantity sits below the entry points (all of them share Star.initialize / prepare / opacity):
+\* its variants are explored through one entry point, the entry points with the memo-free design and its slips
+HEntryFixed == hKey # "none"
+HSlips == {<<"none", "none">>} \cup {p \in HSlipKinds \X HEntries : p[1] \in {"left", "leftfail"} => p[2] # "model"}
+HInit == /\ hLevel \in HLevels /\ hKey \in HKeys /\ hWhat \in HWhats /\ hStore \in HStores /\ hSlip \in HSlips /\ HVariantOk
+         /\ win \in HWinIds /\ entry \in HEntries /\ (HEntryFixed => entry = "model") /\ prev = -1 /\ memo = {} /\ clist = HAllContribs
+         /\ out = <<>> /\ parts = {} /\ evald = FALSE
+\* another grid is passed, or another entry point is called: the previous result is no longer looked at
+HSet(w, e) == /\ <<w, e>> # <<win, entry>> /\ (HEntryFixed => e = entry)
+              /\ win' = w /\ entry' = e /\ evald' = FALSE /\ out' = <<>> /\ parts' = {}
+              \* (history variable, read by Ref_kept_across_full only)
+              /\ prev' = IF hStore = "all" /\ evald THEN win ELSE prev
+              /\ UNCHANGED <<hdesign, memo, clist>>
+HSlipOn(kind) == hSlip = <<kind, entry>>
+\* the grid the entry point computes on
+HGridOf(w) == IF HSlipOn("swap") /\ HCut(w) THEN GClip(HReq(w), HNat)
+              ELSE IF HSlipOn("nocut") /\ w # 0 THEN GClip(HNat, HReq(w))
+              ELSE HClip(w)
+\* the contribution a per-component entry point is working on when the request is refused: the first of the list
+HFirstOf(cl) == HContribs[GSetMin({i \in DOMAIN HContribs : HContribs[i] \in cl})]
+HLastOf(cl)  == HContribs[GSetMax({i \in DOMAIN HContribs : HContribs[i] \in cl})]
+HRefuse == /\ out' = <<>> /\ parts' = {} /\ evald' = TRUE
+           /\ clist' = IF HSlipOn("leftfail") THEN {HFirstOf(clist)} ELSE clist
+           /\ UNCHANGED <<hdesign, win, entry, prev, memo>>
+HCompute == LET c == HGridOf(win)
+                tab == c = HClip(win)
+                g == HUse(win, "grid", c)
+                s == IF tab THEN HSedT[win] ELSE QSed(c)
+                o == IF tab THEN HOpT[win] ELSE QOp(c)
+            IN  /\ out' = HCombine(g, HUse(win, "sed", s), HUse(win, "op", o))
+                /\ parts' = HPartsOf(entry, clist)
+                /\ clist' = IF HSlipOn("left") THEN {HLastOf(clist)} ELSE clist
+                /\ memo' = IF hKey # "none" /\ HHit(win) = {}
+                           THEN (IF hStore = "last" THEN {} ELSE memo) \cup {HEntry(win)} ELSE memo
+                /\ evald' = TRUE
+                /\ UNCHANGED <<hdesign, win, entry, prev>>
+HEval == IF HGridOf(win) = <<>> THEN HRefuse ELSE HCompute
+HNext == (\E w \in HWinIds, e \in HEntries : HSet(w, e)) \/ HEval
 HSpec == HInit /\ [][HNext]_hvars
 
 \* ------------------------------------------------------------ invariants
 \* the property: every evaluation returns the full native computation at the points it computes
-EvalEqualsFull  == evald => out = HRestricted(win)
+\* (every spectrum the entry point returns: `parts` names them, `out` is the grid / SED / opacity columns they share)
+EvalEqualsFull  == evald => out = HRestricted(win) /\ parts = HParts(win, entry)
 \* refinement of Functional.tla: ... and what a freshly built object returns for the same request
-EvalEqualsFresh == evald => out = HFresh(win)
+EvalEqualsFresh == evald => out = HFresh(win) /\ parts = HParts(win, entry)
 \* the computed grid is the clip of the CURRENT request, a contiguous part of the native grid
-OnClippedGrid   == evald => /\ Len(out) = HHi(win) - HLo(win) + 1
+OnClippedGrid   == (evald /\ ~HFails(win)) =>
+                            /\ Len(out) = HHi(win) - HLo(win) + 1
                             /\ \A k \in 1..Len(out) : out[k].wn = HNat[HLo(win) + k - 1]
 HFits == evald => \A k \in 1..Len(out) : Fits(out[k].op[1].w) /\ Fits(out[k].op[2].w)
 
-HSound == \/ hKey \in {"none", "content"}
-          \/ hLevel = "clip" /\ hKey \in {"points", "ends"}
+HSound == /\ hSlip[1] = "none"
+          /\ \/ hKey \in {"none", "content"}
+             \/ hLevel = "clip" /\ hKey \in {"points", "ends"}
 HoldFull    == HSound => EvalEqualsFull
 HoldFresh   == HSound => EvalEqualsFresh
 HoldClipped == HSound => OnClippedGrid
@@ -152,4 +224,16 @@ Ref_clip_first_op       == Mut("clip", "first", "op")
 \* a memo that keeps every miss is wrong even when the previous evaluation was the full grid
 Ref_kept_across_full    == (hStore = "all" /\ hLevel = "clip" /\ hKey = "size" /\ hWhat = "sed" /\ prev = 0 /\ win # 0)
                               => EvalEqualsFull
+\* one invariant per slip of an entry point (expected counterexamples as well)
+Slip(kind, e) == (hSlip = <<kind, e>>) => EvalEqualsFull
+Ref_slip_swap_model       == Slip("swap", "model")
+Ref_slip_swap_contrib     == Slip("swap", "contrib")
+Ref_slip_swap_full        == Slip("swap", "full")
+Ref_slip_nocut_model      == Slip("nocut", "model")
+Ref_slip_nocut_contrib    == Slip("nocut", "contrib")
+Ref_slip_nocut_full       == Slip("nocut", "full")
+Ref_slip_left_contrib     == Slip("left", "contrib")
+Ref_slip_left_full        == Slip("left", "full")
+Ref_slip_leftfail_contrib == Slip("leftfail", "contrib")
+Ref_slip_leftfail_full    == Slip("leftfail", "full")
 =============================================================================
